@@ -1,4 +1,5 @@
 import BdModel.Proofs.Sched.Order
+import BdModel.Proofs.Sched.Progress
 /-
   C02 — failure and skip containment: final step states follow the DAG semantics.
   Stated as local consistency of every step's label with the labels of its dependencies, in every
@@ -83,8 +84,19 @@ example : ((runActs demoCfg (init demoCfg) demoActs).map fun s =>
     ((s.nd 0).status, (s.nd 1).status, (s.nd 2).status, (s.nd 1).execs, s.canceled, s.loop)) =
     some (.error, .cancel, .cancel, 0, false, .waiting) := by decide
 
+
+/-- **C02 (steps not blocked always get their turn).** While the run is unstopped and unfinished and no
+    step is running, one visit of the loop launches a step whose dependencies all let it proceed, or
+    labels a step that is blocked: no step is left `not started` for ever by the loop itself. -/
+theorem C02_progress (c : Cfg) (hw : WF c) (hrk : Ranked c) (s : State)
+    (hscan : s.loop = .scanning) (hnc : s.canceled = false) (hnf : isFinished c s = false)
+    (hnr : ∀ j, j < c.n → (s.nd j).status ≠ .running) :
+    ∃ i s', step c s (.visitDecide i) = some s' ∧ s' ≠ s :=
+  scan_progress c hw hrk s hscan hnc hnf hnr
+
 end BdModel.P02
 
 #print axioms BdModel.P02.C02_total
 #print axioms BdModel.P02.C02_labels
 #print axioms BdModel.P02.C02_containment
+#print axioms BdModel.P02.C02_progress
